@@ -282,15 +282,17 @@ def a64_values(imm: int, disp: int, post: int, sc: int, esc: int) -> bool:
 
 # ------------------------------------------------------------------ (a) search
 
-KINDS = ["gpr", "xmm", "imm", "mem"]
-SHAPES = [()] + [(a,) for a in range(4)] + [(a, b) for a in range(4) for b in range(4)]   # 21 operand-kind tuples
+KINDS = ["gpr", "xmm", "imm", "mem"]                      # instruction operand kinds
+EKINDS = ["gpr", "xmm", "imm", "mem", "anyreg"]           # entry operand kinds (anyreg = register wildcard '*')
+SHAPES = [()] + [(a,) for a in range(4)] + [(a, b) for a in range(4) for b in range(4)]      # 21 instruction shapes
+ESHAPES = [()] + [(a,) for a in range(5)] + [(a, b) for a in range(5) for b in range(5)]     # 31 entry shapes
 
 
 def _mk_entry_ops(shape):
     out = []
     for k in shape:
         out.append({"gpr": RegisterOperand(name="gpr"), "xmm": RegisterOperand(name="xmm"), "imm": ImmediateOperand(imd_type="int"),
-                    "mem": MemoryOperand(base=W, offset=W, index=W, scale=W)}[KINDS[k]])
+                    "mem": MemoryOperand(base=W, offset=W, index=W, scale=W), "anyreg": RegisterOperand(name=W)}[EKINDS[k]])
     return out
 
 
@@ -302,48 +304,66 @@ def _mk_instr_ops(shape):
     return out
 
 
-def _search_concrete(entry_shapes, instr_shape, upper, name_none):
+def _shape_matches(eshape, ishape):
+    if len(eshape) != len(ishape):
+        return False
+    for e, i in zip(eshape, ishape):
+        if EKINDS[e] == "anyreg":
+            if KINDS[i] not in ("gpr", "xmm"):
+                return False
+        elif EKINDS[e] != KINDS[i]:
+            return False
+    return True
+
+
+def _search_concrete(entry_shapes, instr_shape, upper, name_none, warmup=True):
     model = mk_model("x86", ports=["0"])
     ents = []
     for i, es in enumerate(entry_shapes):
-        ents.append(add_entry(model, "OP", _mk_entry_ops(SHAPES[es]), tp=float(i + 1), lat=float(i + 1), uops=[]))
-    add_entry(model, "OTHER", _mk_entry_ops(SHAPES[instr_shape]), tp=99.0, lat=99.0, uops=[])
+        ents.append(add_entry(model, "OP", _mk_entry_ops(ESHAPES[es]), tp=float(i + 1), lat=float(i + 1), uops=[]))
+    add_entry(model, "OTHER", _mk_instr_ops(SHAPES[instr_shape]), tp=99.0, lat=99.0, uops=[])
     name = None if name_none else ("OP" if upper else "op")
+    if warmup:
+        # earlier lookups on the same model (other instructions of the same mnemonic, later entries
+        # first) must not influence which entry a later lookup returns
+        for ws in reversed(range(len(SHAPES))):
+            if any(_shape_matches(ESHAPES[es], SHAPES[ws]) for es in entry_shapes[1:]):
+                model.get_instruction("op", _mk_instr_ops(SHAPES[ws]))
     got = model.get_instruction(name, _mk_instr_ops(SHAPES[instr_shape]))
     want = None
     if not name_none:
         for i, es in enumerate(entry_shapes):
-            if SHAPES[es] == SHAPES[instr_shape]:
+            if _shape_matches(ESHAPES[es], SHAPES[instr_shape]):
                 want = ents[i]
                 break
-    return got is want, want is not None, {"entries": [list(SHAPES[e]) for e in entry_shapes], "instr": list(SHAPES[instr_shape]), "found": want is not None}
+    return got is want, want is not None, {"entries": [[EKINDS[k] for k in ESHAPES[e]] for e in entry_shapes], "instr": [KINDS[k] for k in SHAPES[instr_shape]], "found": want is not None}
 
 
 def search2(e0: int, e1: int, ins: int, upper: bool, name_none: bool) -> bool:
     """
-    pre: 0 <= e0 < 21 and 0 <= e1 < 21 and 0 <= ins < 21
+    pre: 0 <= e0 < 31 and 0 <= e1 < 31 and 0 <= ins < 21
     post: _
     """
     if skip(locals()):
         return True
-    lo, hi = shard(21)
+    lo, hi = shard(31)
     if not (lo <= e0 < hi):
         return True
     if (upper or name_none) and e1 != 0:
         return True   # name variants: second entry fixed (the name handling precedes operand matching)
-    ok, nt, sample = native(_search_concrete, [pick(e0, 21), pick(e1, 21)], pick(ins, 21), True if upper else False, True if name_none else False)
+    ok, nt, sample = native(_search_concrete, [pick(e0, 31), pick(e1, 31)], pick(ins, 21), True if upper else False, True if name_none else False)
     return verdict(ok, nontrivial=nt, sample=sample)
 
 
 def search3(e0: int, e1: int, e2: int, ins: int) -> bool:
     """
-    pre: 0 <= e0 < 5 and 0 <= e1 < 5 and 0 <= e2 < 5 and 0 <= ins < 5
+    pre: 0 <= e0 < 6 and 0 <= e1 < 6 and 0 <= e2 < 6 and 0 <= ins < 5
     post: _
     """
-    # three entries with <= 1 operand: duplicates and shadowing
+    # three entries with <= 1 operand: duplicates, shadowing, register wildcard
     if skip(locals()):
         return True
-    ok, nt, sample = native(_search_concrete, [pick(e0, 5), pick(e1, 5), pick(e2, 5)], pick(ins, 5), False, False)
+    ok, nt, sample = native(_search_concrete, [pick(e0, 6), pick(e1, 6), pick(e2, 6)], pick(ins, 5), False, False)
     return verdict(ok, nontrivial=nt, sample=sample)
 
 
@@ -410,7 +430,7 @@ CELLS = {
                   "budget": {"quick": 170, "thorough": 900}, "shards": 32},
     "x86_values": {"fn": x86_values, "bound": "immediate value and displacement unbounded symbolic ints, scale in {1,2,4,8} x entry scale/offset kinds", "budget": {"quick": 120, "thorough": 300}},
     "a64_values": {"fn": a64_values, "bound": "immediate, offset, post-index amount unbounded symbolic ints, scales", "budget": {"quick": 120, "thorough": 300}},
-    "search2": {"fn": search2, "bound": "2 entries under one mnemonic, each any of 21 operand-kind tuples (0-2 operands over gpr/xmm/imm/mem) x instruction of 21 tuples x name case x name None", "budget": {"quick": 170, "thorough": 600}, "shards": 21},
+    "search2": {"fn": search2, "bound": "2 entries under one mnemonic, each any of 31 operand-kind tuples (0-2 operands over gpr/xmm/imm/mem/register wildcard) x instruction of 21 tuples x name case x name None; earlier lookups on the same model precede the measured one", "budget": {"quick": 170, "thorough": 600}, "shards": 16},
     "search3": {"fn": search3, "bound": "3 entries (0-1 operand) incl. duplicates/shadowing x instruction", "budget": {"quick": 120, "thorough": 300}},
     "fallback": {"fn": fallback, "bound": "suffix fall-backs in assign_tp_lt: full-name entry {absent, matching, non-matching} x stripped-name entry {same} x 8 x86 suffix letters / 3 AArch64 mnemonics", "budget": {"quick": 120, "thorough": 300}},
 }
